@@ -951,6 +951,17 @@ func (x *runner) preIssuerCase(root, pi *authority, rootSKI, piSKI bool) {
 		// different signature algorithms: the final certificate's signature field must be the precertificate's (RFC 6962 3.1)
 		bf.setField(fSigAlg, bp.field(fSigAlg))
 	}
+	if piSKI && rootSKI && r.Intn(2) == 0 {
+		// a critical authority key id on both sides (the library never writes one): the replace case must keep the flag
+		crit := func(p *parts) {
+			if k := findExt(p.exts, oidAKI); k >= 0 {
+				p.exts[k] = mkExt(oidAKI, true, extValue(p.exts[k]))
+			}
+		}
+		crit(&bp)
+		crit(&bf)
+		x.out.Count("class:preissuer-aki-critical")
+	}
 	cls := fmt.Sprintf("class:preissuer-aki-pre%v-final%v", piSKI, rootSKI)
 	x.out.Count(cls)
 	atEnd := false
@@ -1126,6 +1137,16 @@ func (x *runner) verifyCase(ca *authority) {
 	sct3.Timestamp = 778
 	if err := ctutil.VerifySCT(x.k.log.Public(), chF, &sct3, true); err == nil {
 		x.out.Fail(key, "SCT that is not embedded accepted as embedded")
+	}
+	if _, err := ctutil.LeafHash(chF, &sct3, true); err == nil {
+		x.out.Fail(key, "LeafHash(embedded) computed for an SCT that is not in the certificate")
+	}
+	sct3Bytes, _ := tls.Marshal(sct3)
+	if v2, err := submission.ASN1MarshalSCTs([]*submission.AssignedSCT{{SCT: &sct3}, {SCT: &sct}}); err != nil {
+		x.out.Fail(key, "ASN1MarshalSCTs of two SCTs: "+err.Error())
+	} else {
+		x.out.T("sctenc 2 "+h(sct3Bytes)+" "+h(sctBytes), "ok "+h(v2))
+		x.sctDec(ca, base, v2, [][]byte{sct3Bytes, sctBytes})
 	}
 	// x509util round trip of the parsed list
 	got, err := x509util.ParseSCTsFromSCTList(&x509.SignedCertificateTimestampList{SCTList: chF[0].SCTList.SCTList[1:]})
